@@ -271,6 +271,95 @@ func run(in Input) (res lib.Result) {
 	}
 }
 
+// ---- exhaustive small scope: every ordered tree shape with <= maxN nodes, every assignment of self values
+// from {0,1,2} and of child names from {a, other} (children of one node may repeat a name), consistent totals ----
+
+func shapes(n int) []*treeu.JNode { // all ordered trees with exactly n nodes
+	if n == 1 {
+		return []*treeu.JNode{{}}
+	}
+	var res []*treeu.JNode
+	for _, f := range forests(n - 1) {
+		res = append(res, &treeu.JNode{Children: f})
+	}
+	return res
+}
+
+func forests(n int) [][]*treeu.JNode { // all ordered forests with exactly n nodes
+	if n == 0 {
+		return [][]*treeu.JNode{nil}
+	}
+	var res [][]*treeu.JNode
+	for k := 1; k <= n; k++ {
+		for _, first := range shapes(k) {
+			for _, rest := range forests(n - k) {
+				res = append(res, append([]*treeu.JNode{first}, rest...))
+			}
+		}
+	}
+	return res
+}
+
+func clone(n *treeu.JNode) *treeu.JNode {
+	r := &treeu.JNode{Name: n.Name, Self: n.Self, Total: n.Total}
+	for _, c := range n.Children {
+		r.Children = append(r.Children, clone(c))
+	}
+	return r
+}
+
+func flatten(n *treeu.JNode, out *[]*treeu.JNode) {
+	*out = append(*out, n)
+	for _, c := range n.Children {
+		flatten(c, out)
+	}
+}
+
+func fixTotals(n *treeu.JNode) uint64 {
+	n.Total = n.Self
+	for _, c := range n.Children {
+		n.Total += fixTotals(c)
+	}
+	return n.Total
+}
+
+func enum(tier string) []Input {
+	maxN, selfs := 3, []uint64{0, 1, 2}
+	if tier == "thorough" {
+		maxN = 4
+	}
+	enumNames := [][]byte{[]byte("a"), []byte("other")}
+	var res []Input
+	for n := 1; n <= maxN; n++ {
+		for _, sh := range shapes(n) {
+			combos := 1
+			for i := 0; i < n; i++ {
+				combos *= len(selfs)
+			}
+			nameCombos := 1 << (n - 1)
+			for sc := 0; sc < combos; sc++ {
+				for nc := 0; nc < nameCombos; nc++ {
+					t := clone(sh)
+					var nodes []*treeu.JNode
+					flatten(t, &nodes)
+					x := sc
+					for _, nd := range nodes {
+						nd.Self = selfs[x%len(selfs)]
+						x /= len(selfs)
+					}
+					nodes[0].Name = []byte("")
+					for i := 1; i < n; i++ {
+						nodes[i].Name = enumNames[(nc>>(i-1))&1]
+					}
+					fixTotals(t)
+					res = append(res, Input{Tree: t, Budgets: budgetsFor(n), Kind: "enum"})
+				}
+			}
+		}
+	}
+	return res
+}
+
 func main() {
-	lib.Main(lib.Harness[Input]{Prop: "C10", Quick: 600, Thorough: 8000, Gen: gen, Run: run})
+	lib.Main(lib.Harness[Input]{Prop: "C10", Quick: 600, Thorough: 8000, Gen: gen, Enum: enum, Run: run})
 }
